@@ -184,7 +184,59 @@ def probe_second_call(inp: Dict[str, Any]) -> Dict[str, Any]:
             "fields": {"kinds": sorted(kinds), "method": inp["method"]}}
 
 
-PROBES = {"observables": probe_observables, "second_call": probe_second_call}
+def probe_xl_observables(inp: Dict[str, Any]) -> Dict[str, Any]:
+    """the XL-BOMD / KSA drivers report observables through their own energy class: along a trajectory the reported dipole must be the dipole of the
+    REPORTED density matrix, the reported charges its block traces, and they must sum to the molecular charge"""
+    import types
+
+    import torch
+
+    import seqm.MolecularDynamics as MD
+    from seqm.Molecule import Molecule
+    from seqm.seqm_functions.constants import Constants
+    from seqm.seqm_functions.dipole import calc_ground_dipole
+
+    k = inp.get("k", 4)
+    sp = dict(method=inp.get("method", "AM1"), scf_eps=1e-9, scf_converger=[1], sp2=[False])
+    outp = {"molid": [0], "prefix": "/nonexistent/x", "print every": 0, "checkpoint every": 0, "xyz": 0, "h5": {}}
+    s, x, ch, mu = esh.batch(inp["names"])
+    mol = Molecule(Constants(), sp, torch.as_tensor(x), torch.as_tensor(s), charges=torch.as_tensor(ch))
+    if inp.get("ksa"):
+        md = MD.KSA_XL_BOMD(xl_bomd_params={"k": k, "max_rank": 2, "err_threshold": 0.0, "T_el": 1500}, seqm_parameters=sp, timestep=0.5, Temp=500.0, output=outp)
+    else:
+        md = MD.XL_BOMD(xl_bomd_params={"k": k}, seqm_parameters=sp, timestep=0.5, Temp=500.0, output=outp)
+    bad = []
+    tore = mol.const.tore.numpy()
+    with contextlib.redirect_stdout(io.StringIO()):
+        torch.manual_seed(inp.get("seed", 1))
+        md.initialize(mol)
+        for i in range(inp.get("steps", 5)):
+            md._do_integrator_step(i, mol, dict())
+            rep = mol.dipole.detach().numpy().copy()
+            shadow = types.SimpleNamespace(coordinates=mol.coordinates.detach(), species=mol.species, const=mol.const, parameters=mol.parameters, method=mol.method, dipole=None)
+            for a_ in ("nmol", "molsize", "nHeavy", "nHydro", "Z", "maskd", "mask", "idxi", "idxj", "ni", "nj", "xij", "rij", "seqm_parameters"):
+                if hasattr(mol, a_):
+                    setattr(shadow, a_, getattr(mol, a_))
+            calc_ground_dipole(shadow, mol.dm.detach())
+            want = shadow.dipole.detach().numpy()
+            d = float(np.abs(rep - want).max())
+            if d > 1e-9:
+                bad.append(f"step {i + 1}: reported dipole differs from the dipole of the reported density matrix by {d:.3e} a.u.")
+                break
+            P = mol.dm.detach().numpy()
+            n = s.shape[1]
+            qexp = tore[s] - np.stack([np.diag(P[m]).reshape(n, 4).sum(1) for m in range(len(inp["names"]))])
+            if np.abs(qexp - mol.q.detach().numpy()).max() > 1e-9:
+                bad.append(f"step {i + 1}: reported charges are not the block traces of the reported density")
+                break
+            if np.abs(mol.q.detach().numpy().sum(1) - ch).max() > 1e-6:
+                bad.append(f"step {i + 1}: charges sum to {mol.q.detach().numpy().sum(1).tolist()} instead of {ch.tolist()}")
+                break
+    return {"ok": not bad, "observed": bad, "expected": "dipole and charges reported by the XL drivers are those of the reported density", "predicate": "",
+            "fields": {"checks_failed": ["xl_dipole"] if bad else [], "method": inp.get("method", "AM1"), "uhf": False, "ksa": bool(inp.get("ksa"))}}
+
+
+PROBES = {"xl_observables": probe_xl_observables, "observables": probe_observables, "second_call": probe_second_call}
 
 
 def gen_cases(ctx: Ctx) -> List[Dict[str, Any]]:
@@ -284,6 +336,13 @@ def run(ctx: Ctx):
             ctx.obligation("probe second_call evaluated", False, repr(r)[:1500], kind="harness")
             continue
         ctx.probe_case("second_call", c, r["ok"], fields=r["fields"], observed=r["observed"], expected=r["expected"], predicate=r["predicate"], stratum="second_call")
+    xl_cases = [{"names": [["h2o"], ["ch2o"], ["oh-", "ch4"]][ctx.seed % 3], "k": int(ctx.rng.integers(3, 10)), "ksa": False, "seed": int(ctx.rng.integers(1, 999)), "method": str(ctx.rng.choice(["AM1", "PM3"]))},
+                {"names": ["h2o", "nh3"], "k": 4, "ksa": True, "seed": int(ctx.rng.integers(1, 999))}]
+    for c, r in zip(xl_cases, mdh.pmap(probe_xl_observables, xl_cases)):
+        if isinstance(r, Exception) or r is None:
+            ctx.obligation("probe xl_observables evaluated", False, repr(r)[-1500:], kind="harness")
+            continue
+        ctx.probe_case("xl_observables", c, r["ok"], fields=r["fields"], observed=r["observed"], expected=r["expected"], predicate=r["predicate"], stratum="ksa" if c["ksa"] else "xl")
     for c, r in zip(cases, results):
         if isinstance(r, Exception) or r is None:
             ctx.obligation("probe observables evaluated", False, repr(r)[:1500], kind="harness")
